@@ -80,6 +80,13 @@ func c20sequential(c *fw.Ctx) {
 		a := zap.NewAtomicLevelAt(zapcore.DebugLevel)
 		alvl = &a
 		ml, root = newMemLoggerAt(a)
+		if c.Idx%4 == 3 {
+			// the way InitLogging wires it: the buffer is one leg of a tee next to a core that takes everything, so the
+			// logger asks the tee (not the buffer) whether a level is enabled - the buffer has to filter on its own level
+			verbose, _ := observer.New(zapcore.DebugLevel)
+			root = zap.New(zapcore.NewTee(ml.GetCore(), verbose))
+			c.Count("histories_with_the_buffer_beside_a_verbose_core", 1)
+		}
 		c.Count("histories_on_adjustable_level", 1)
 	} else {
 		ml, root = newMemLogger()
@@ -491,13 +498,13 @@ func init() {
 		// a concurrent run normally takes well under a second; if no case completes for 120 s (writers or a dump blocked
 		// for good) the worker stops and the driver reports the case
 		StallSeconds: 120,
-		Rule: "sequential histories: a root zap.Logger on MemLogger.GetCore() (half of them on an adjustable zap.AtomicLevel that is changed mid-stream: a write counts iff its level is enabled at that moment; a quarter of the reads also compare level and call fields of every entry) and 0..4 loggers derived with With(fields) from the root or from each other, created before any write, mid-stream or after the ring wrapped; writes interleaved through all loggers, each with a unique id; totals 0, 1, 2, 17, capacity-1, capacity, capacity+1, 2*capacity, 2*capacity+3, 5000 and random " +
+		Rule: "sequential histories: a root zap.Logger on MemLogger.GetCore() (half of them on an adjustable zap.AtomicLevel that is changed mid-stream: a write counts iff its level is enabled at that moment; half of these build the logger on a tee of the buffer and a core that takes every level, as InitLogging does; a quarter of the reads also compare level and call fields of every entry) and 0..4 loggers derived with With(fields) from the root or from each other, created before any write, mid-stream or after the ring wrapped; writes interleaved through all loggers, each with a unique id; totals 0, 1, 2, 17, capacity-1, capacity, capacity+1, 2*capacity, 2*capacity+3, 5000 and random " +
 			"(capacity read from logging.BufferSize). After every 257th write, at the capacity boundary and at the end GetLogs() must equal exactly the last min(total, capacity) ids, newest first; WriteLogs at detail 1..3 must print the same ids in the same order. " +
 			"concurrent histories (race binary): 2..8 goroutines write unique ids through a mix of root and derived loggers (some derived mid-stream), GOMAXPROCS in {1,2,4,16}; at quiescence exactly min(total, capacity) distinct written entries, per writer a suffix of its writes in newest-first order; in half of the runs one or two goroutines call GetLogs/WriteLogs concurrently (WriteLogs into a writer that yields the processor inside every Write; printed lines = well-formed ids) and every snapshot must be duplicate-free, " +
 			"made of written ids, per-writer newest-first. Race reports are violations. non-trivial = history with at least one derived logger (sequential) / every concurrent run",
 		Cases: func(tier string) int { s, cc := c20layout(tier); return s + cc },
 		Run:   runC20,
-		Floors: map[string]int64{"sequential_histories": 4500, "histories_on_adjustable_level": 2000, "level_changes": 20000, "writes_below_the_level": 100000, "snapshots_compared_in_detail": 20000, "held_snapshots_rechecked": 100000, "read_gap:capacity": 300, "read_gap:2xcapacity": 300, "read_gap:1": 200, "snapshots_compared": 10000, "derived_loggers": 5000, "histories_above_capacity": 1500, "concurrent_runs": 200, "concurrent_runs_above_capacity": 50,
+		Floors: map[string]int64{"sequential_histories": 4500, "histories_on_adjustable_level": 2000, "histories_with_the_buffer_beside_a_verbose_core": 1000, "level_changes": 20000, "writes_below_the_level": 100000, "snapshots_compared_in_detail": 20000, "held_snapshots_rechecked": 100000, "read_gap:capacity": 300, "read_gap:2xcapacity": 300, "read_gap:1": 200, "snapshots_compared": 10000, "derived_loggers": 5000, "histories_above_capacity": 1500, "concurrent_runs": 200, "concurrent_runs_above_capacity": 50,
 			"concurrent_runs_with_snapshots": 90, "entries_written": 3000000},
 		Assumptions: []string{"capacity is read from the exported constant logging.BufferSize", "a case in which writers or GetLogs/WriteLogs do not return for 120 s (normal: milliseconds) is reported as a violation: the buffer no longer returns its entries", "race freedom = no report from the Go race detector on the interleavings that occurred"},
 	})
